@@ -559,19 +559,26 @@ def coq_row(r, a, n):
 INPROC = [dict(w=['-l'], sleep=0), dict(w=[], sleep=0), dict(w=['-b'], sleep=0), dict(w=['-l', '-i', '1'], sleep=0),
           dict(w=['-i', '1'], sleep=0), dict(w=['-l', '-i', '1'], sleep=1.35), dict(w=['-l', '-i', '1', '-v'], sleep=0),
           # the program ends while a periodic dump is in flight (the dump is held by the driver)
-          dict(w=['-l', '-i', '1'], sleep=0, block=True), dict(w=['-i', '1', '-v'], sleep=0, block=True)]
+          dict(w=['-l', '-i', '1'], sleep=0, block=True), dict(w=['-i', '1', '-v'], sleep=0, block=True),
+          # the program ends in an uncaught exception / sys.exit while the timer is armed: it is stopped all the same
+          dict(w=['-l', '-i', '1'], sleep=0, prog='raising_prog.py'), dict(w=['-i', '1'], sleep=0, prog='exit_prog.py'),
+          dict(w=['-b', '-i', '1'], sleep=0, prog='raising_prog.py'), dict(w=['-l', '-i', '1'], sleep=0, prog='exit_prog.py')]
 
 
 def run_inproc(impl, base, tier):
     proj = os.path.realpath(os.path.join(base, 'inproc', 'proj'))
     files = {'quick_prog.py': 'import sys\nprint("QP", len(sys.argv))\n',
              'slow_prog.py': 'import sys, time\ntime.sleep(float(sys.argv[1]))\nprint("SP")\n',
-             'held_prog.py': 'import sys\nprint("HP", sys.modules["__main__"].DUMP_STARTED.wait(20))\n'}
+             'held_prog.py': 'import sys\nprint("HP", sys.modules["__main__"].DUMP_STARTED.wait(20))\n',
+             'raising_prog.py': 'import sys\nprint("RP")\nraise ValueError("RP")\n',
+             'exit_prog.py': 'import sys\nprint("EP")\nsys.exit(3)\n'}
     write_project(proj, files)
-    specs = INPROC if tier == 'thorough' else INPROC[:4] + INPROC[5:6] + INPROC[7:8]
+    specs = INPROC if tier == 'thorough' else INPROC[:4] + INPROC[5:6] + INPROC[7:8] + INPROC[9:11]
     runs = []
     for s in specs:
-        if s.get('block'):
+        if s.get('prog'):
+            runs.append(dict(cwd=proj, args=s['w'] + [s['prog']]))
+        elif s.get('block'):
             runs.append(dict(cwd=proj, args=s['w'] + ['held_prog.py'], block=True))
         elif s['sleep']:
             runs.append(dict(cwd=proj, args=s['w'] + ['slow_prog.py', str(s['sleep'])]))
@@ -674,7 +681,8 @@ def run(tier, seed):
                                        finding=fid))
         if s.get('block') and o['inflight'] < 1:
             res.infra_errors.append('in-process run %r: no dump was in flight when the program ended (%r)' % (s, o))
-        if o['exc'] or o['alive_after_cleanup']:
+        want_exc = {'raising_prog.py': 'ValueError', 'exit_prog.py': None}.get(s.get('prog'))   # (sys.exit is absorbed by main)
+        if o['exc'] != want_exc or o['alive_after_cleanup']:
             res.infra_errors.append('in-process run %r: exc=%r alive_after_cleanup=%r' % (s, o['exc'], o['alive_after_cleanup']))
 
     # ---- shards
